@@ -18,6 +18,7 @@ use std::error::Error;
 pub enum ExecutionError {
     AdviceMapKeyNotFound(Word),
     AdviceStackReadFailed(u32),
+    CallInSyscall(&'static str),
     CallerNotInSyscall,
     CodeBlockNotFound(Digest),
     CycleLimitExceeded(u32),
@@ -77,6 +78,9 @@ impl Display for ExecutionError {
                 write!(f, "Value for key {hex} not present in the advice map")
             }
             AdviceStackReadFailed(step) => write!(f, "Advice stack read failed at step {step}"),
+            CallInSyscall(instruction) => {
+                write!(f, "Instruction `{instruction}` cannot be executed inside a syscall: a syscall cannot create a new execution context")
+            }
             CallerNotInSyscall => {
                 write!(f, "Instruction `caller` used outside of kernel context")
             }
